@@ -1,0 +1,8 @@
+//go:build !verif
+
+package sdf
+
+// simYield is a scheduling hook used by the /verif deterministic simulator.
+// Without the "verif" build tag it is an empty function that the compiler
+// removes.
+func simYield(site string, key uint64) {}
